@@ -377,6 +377,17 @@ func (n *ForNode) renderForLoop(w io.Writer, ctx *RenderContext, seq interface{}
 	// Get the value as a reflect.Value for iteration
 	val := reflect.ValueOf(seq)
 
+	// A pointer to a list, map or string is iterated as what it points to (as it is
+	// when printed or when one of its members is read)
+	for val.Kind() == reflect.Ptr && !val.IsNil() {
+		switch val.Elem().Kind() {
+		case reflect.Slice, reflect.Array, reflect.Map, reflect.String, reflect.Ptr:
+			val = val.Elem()
+			continue
+		}
+		break
+	}
+
 	// Create a new context for the loop variables
 	loopCtx := ctx
 
